@@ -18,12 +18,24 @@ from .values import Unsupported
 def make_models():
     m = Models()
     m.plugins.append(GemseoModels())
+    from .plug_graph import GraphModels
+
+    m.plugins.append(GraphModels())
+    from .plug_parallel import ParallelModels  # C13: queues, threads/processes (hooks only fire on its own types/names)
+
+    m.plugins.insert(0, ParallelModels())
     try:
         from .npmodel import NumpyModel
 
         m.plugins.insert(0, NumpyModel())
     except ImportError:
         pass
+    from .plug_caches import CacheModels  # C05: full caches (hooks gated on the cache modules / declared proxy fields)
+
+    m.plugins.insert(0, CacheModels())
+    from .plug_grammars import GrammarModels  # C15: collections.abc mixins of the grammar classes, type objects as opaque values
+
+    m.plugins.insert(0, GrammarModels())
     return m
 
 
@@ -52,6 +64,13 @@ def generate(prop: str, only=None):
         if getattr(ct, "trusted", False):
             rep.status = "trusted"
             rep.reason = ct.description
+            continue
+        if getattr(ct, "lemma", False):
+            from .state import Obligation
+
+            for label, f in ct.lemmas():
+                rep.obligations.append(Obligation(f"{prop}/{target}/lemma:{label}", "lemma", target, 0, [], f, label, prop=prop))
+            rep.paths = 1
             continue
         t0 = time.time()
         try:
